@@ -170,6 +170,11 @@ func (b *backend) List(ctx context.Context, r *proto.RangeRequest) (resp *proto.
 		kvs = kvs[0:r.Limit]
 	}
 	resp.Kvs = kvs
+	// a read at an explicit revision above the committed one may carry newer data:
+	// the header is never smaller than the revision of any kv returned (as in Get)
+	for _, kv := range kvs {
+		resp.Header.Revision = maxUint64(resp.Header.Revision, kv.Revision)
+	}
 	return resp, nil
 }
 
